@@ -82,6 +82,22 @@ theorem package_vars_never_assigned :
         (u.1 == "var:key_aesmac.fixedIV" || u.1 == "var:key_hkdf.fixedIV" || u.1 == "var:key.encMode" || u.1 == "var:key.decMode"
           || u.1 == "var:cose.cwtPrefix") && (u.2 == "assigned" || u.2 == "addr")))) = [] := by decide +kernel
 
+/-- **the library's shared state is the known one**: the only package-level variables any function of the library touches
+    are the four registries, the two codec modes and the constant prefixes / zero IVs.  A pooled or buffered reader, a
+    cache or a scratch buffer introduced at package level appears here. -/
+theorem package_vars_are_the_known_ones :
+    footprints.all (fun m => m.2.2.all (fun u => !(u.1.startsWith "var:") ||
+      ["var:cose.cwtPrefix", "var:cose.encrypt0MessagePrefix", "var:cose.encryptMessagePrefix", "var:cose.mac0MessagePrefix",
+       "var:cose.macMessagePrefix", "var:cose.sign1MessagePrefix", "var:cose.signMessagePrefix", "var:key.decMode", "var:key.encMode",
+       "var:key.encryptors", "var:key.macers", "var:key.signers", "var:key.verifiers", "var:key_aesmac.fixedIV",
+       "var:key_hkdf.fixedIV"].contains u.1)) = true := by decide +kernel
+
+/-- … and the random source keeps none: `GetRandomBytes` is `make` + `crypto/rand.Read` (safe for concurrent use) -/
+theorem random_source_is_stateless :
+    randomCallees =
+      [("key.GetRandomBytes", ["make", "crypto/rand.Read"]),
+       ("key.GetRandomUint32", ["key.GetRandomBytes", "encoding/binary.bigEndian.Uint32"])] := by decide +kernel
+
 /-- the fields of the implementation types: key reference + immutable material only.  A new field (cache,
     scratch buffer, stored `hash.Hash` / `cipher.BlockMode` / `cipher.AEAD`) changes this table. -/
 theorem impl_struct_fields :
